@@ -141,6 +141,11 @@ pub fn validate(sp: &Sparse<Rat>, model: &Model, rows: usize, cols: usize, what:
             return fail(format!("(row_index[k], col_index[k], val[k]) at k={} = {:?} differs from the k-th triplet {:?}", k, (sp.row_index[k], ci.vec[k], sp.val[k]), trip[k]));
         }
     }
+    // ... and its inverse: compressing the expanded column indices gives the column starts back
+    let cs = sp.col_start_from_index(&ci);
+    if cs != sp.col_start {
+        return fail(format!("col_start_from_index(col_index()) = {:?} differs from col_start", cs));
+    }
     Ok(())
 }
 
@@ -313,7 +318,7 @@ impl Prop for C06 {
         vec!["entry sets are duplicate-free (the documented precondition of from_triplets); raw arrays given to from_vecs are well-formed".into()]
     }
     fn stream_len(&self, _tier: Tier) -> usize {
-        400
+        560
     }
     fn random_cases(&self, tier: Tier) -> usize {
         tier.pick(40_000, 800_000)
